@@ -553,8 +553,16 @@ def c13_programs(tier, rng):
                 {'mappings': shift + sym + [{'from': ['@symbol', '@shift', {'row': row}], 'to': ['@symbol', {'letters': letters}],
                                              'repeat': sp(['@shift', {'letters': letters[:max(1, p)].replace(SYMCH, 'z')}])}]},
             ]
+            if p in (0, L - 1):
+                # right Shift in the trigger, Special repeat whose letters need a Shift that the repeat itself does not list
+                shifted = ''.join(ch.upper() if ch.isalpha() else {'`': '~', '1': '!', ';': ':', ',': '<', '.': '>', '/': '?', '-': '_', "'": '"'}.get(ch, ch)
+                                  for ch in base_letters[row][:L])
+                variants.append({'mappings': [{'from': ['RIGHTSHIFT', {'row': row}], 'to': {'letters': letters},
+                                               'repeat': sp({'letters': shifted[:max(2, p)]})}]})
+                variants.append({'mappings': shift + [{'from': ['@shift', 'LEFTCTRL', {'row': row}], 'to': ['LEFTCTRL', {'letters': letters}],
+                                                       'repeat': sp(['LEFTALT', {'letters': shifted[:3]}])}]})
             for vi, v in enumerate(variants):
-                if cfg is None or vi == cfg or vi == 0:
+                if cfg is None or vi == cfg or vi == 0 or vi >= 4:
                     P.append(('row %s pos %d variant %d' % (row, p, vi), v))
     # symbolic letter inside the repeat letters
     P.append(('row repeat letters', {'mappings': [{'from': ['CAPSLOCK', {'row': 'A'}], 'to': {'letters': 'hjkl'}, 'repeat': sp({'letters': 'a' + SYMCH + ' '})}]}))
@@ -575,6 +583,10 @@ def c13_programs(tier, rng):
         ('repeat-only no target', {'mappings': [{'from': 'K', 'to': 'UP'}, {'from': ['RIGHTALT', 'J'], 'repeat': sp([])}, {'from': 'L', 'repeat': 'disabled'}]}),
         ('repeat-only alias', {'mappings': shift + [{'from': ['@shift', 'J'], 'to': 'DOWN'}, {'from': ['@shift', 'J'], 'repeat': sp(['@shift', 'F21'])},
                                                    {'from': ['@shift', 'K'], 'repeat': 'Disabled'}]}),
+        ('repeat-only other modifier order', {'mappings': shift + sym + [{'from': ['@shift', '@symbol', 'SPACE'], 'to': 'BACKSPACE'},
+                                                                        {'from': ['@symbol', '@shift', 'SPACE'], 'repeat': 'Disabled'},
+                                                                        {'from': ['LEFTCTRL', 'LEFTALT', 'J'], 'to': 'DOWN'},
+                                                                        {'from': ['LEFTALT', 'LEFTCTRL', 'J'], 'repeat': sp('F21')}]}),
         ('repeat-only on row', {'mappings': [{'from': ['CAPSLOCK', {'row': 'A'}], 'to': {'letters': 'hjkl'}}, {'from': ['CAPSLOCK', 'S'], 'repeat': sp('F22')},
                                              {'from': ['CAPSLOCK', 'A'], 'repeat': 'Disabled'}]}),
         ('two repeat-only same trigger', {'mappings': [{'from': 'J', 'repeat': 'Disabled'}, {'from': 'J', 'repeat': sp('F21')}]}),
@@ -859,7 +871,8 @@ class G:
         if stage == 'from-to':
             return {'mappings': alias_defs + [{'from': self.from_(stage), 'to': self.to(stage)}]}
         if stage == 'from-repeat':
-            m = {'from': self.pick(['A', ['@shift', 'A'], {'row': 'A'}, ['CAPSLOCK', {'row': 'q'}], [], 5]), 'repeat': self.repeat()}
+            m = {'from': self.pick(['A', ['@shift', 'A'], {'row': 'A'}, ['CAPSLOCK', {'row': 'q'}], [], 5, ['A', 'A'], ['@shift', 'LEFTSHIFT', 'A'],
+                                    ['B', 'A', 'B']]), 'repeat': self.repeat()}
             if self.it.choose(2) == 0:
                 m['to'] = self.pick(['B', {'letters': 'ab'}, [], '@x'])
             return {'mappings': alias_defs + [m]}
